@@ -159,7 +159,7 @@ def _task(b):
         m = b.add({"type": "max", "name": f"{name}_max"})
         for t in times:
             b.options += 1
-            if rng.random() < 0.25:  # another strategy of the same task
+            if rng.random() < b.o.get("p_other_strategy", 0.25):  # another strategy of the same task (own duration)
                 parts2 = _parts(b)
                 c = b.add({"type": "choose", "name": name, "parts": parts2, "n": _amount(b, parts2), "start": t, "dur": _dur(b),
                            "util": _util(b)})
@@ -298,6 +298,11 @@ def gen_spec(seed_parts, cls="plain"):
     if cls == "dynpass":
         kinds["mchoose"] = 0
     opts = {"grid": grid, "aligned": aligned, "kinds": kinds, "share": 0.3, "max_options": rng.choice([4, 6, 8])}
+    if cls in ("passes", "dynpass"):
+        # the passes reason about durations: give the alternatives of one task different run times more often, and
+        # more tasks with alternatives
+        opts["p_other_strategy"] = 0.6
+        kinds["max"] = 7
     b = _B(rng, spec, opts)
     root = b.add({"type": "objective", "name": "obj"})
     seen = set()
